@@ -309,6 +309,7 @@ func init() {
 			E7PoolReinit(c, r)
 			E7MapOrder(c, r)
 			E7Clock(c, r)
+			E11ReturnedScratch(c, r, ".go")
 			E1SharedFont(c, r)
 			E1FontLibraryCalls(c, r)
 			E1SharedArgs(c, r)
